@@ -58,7 +58,7 @@ Step(n, ns, removeIds, add) ==
   /\ flight' = [id \in (DOMAIN flight \ removeIds) \cup DOMAIN add |-> IF id \in DOMAIN add THEN add[id] ELSE flight[id]]
   /\ hist' = HistNext(hist, node, [node EXCEPT ![n] = ns])
   /\ bad' = bad \cup ViolatedNames(hist', node')
-  /\ (bad' # bad => PrintT(<<"PROP_VIOLATED", l, bad' \ bad, hist'.trig>>))
+  /\ \A nm \in bad' \ bad : PrintT(<<"PROP_VIOLATED", l, {nm}, TrigFor(nm, hist', node')>>)
 
 EmptyF == [x \in {} |-> 0]
 TInit == /\ node = [n \in Node |-> InitNode(n)] /\ flight = EmptyF /\ hist = InitHist /\ l = 1 /\ bad = {}
